@@ -6,6 +6,8 @@ import GLua.Proofs.LoweringValue5
 namespace GLua.Lowering
 open GLua.Compile GLua.MiniVM GLua.CondSpec
 
+variable [NumStruct]
+set_option linter.unusedSectionVars false
 variable {V : Type}
 
 theorem AuxOut.rebase {P : AuxP V} {ρ0 : Nat → V} {thenl elsel : Nat} {hasnext : Bool} {endpc : Nat} {v : V} {b b' : Bool}
@@ -22,23 +24,24 @@ theorem AuxOut.rebase {P : AuxP V} {ρ0 : Nat → V} {thenl elsel : Nat} {hasnex
     · exact Or.inr (Or.inl ⟨h1, h2, hf.trans h3⟩)
     · exact Or.inr (Or.inr ⟨h1, h2, h3, hb h4, (hf.dest).trans h5⟩)
 
-theorem auxSem_and (d : Dom V) (l r : Cond) (hfl : BCFrag l) (hfr : BCFrag r) (hl : AuxSem d l) (hr : AuxSem d r) :
+theorem auxSem_and (d : Dom V) (l r : Cond) (hl : AuxSem d l) (hr : AuxSem d r) :
     AuxSem d (.and l r) := by
-  intro st F reg ec thenl elsel hasnext lb b ρ γ v H hloc hev hE hK hlab
+  intro st F reg ec thenl elsel hasnext lb b ρ γ v H hloc hreg hev hE hK hlab
+  simp only [rh] at hreg
   simp only [comp, newLabel] at hE hK hlab ⊢
   simp only [LocalsBelow] at hloc
   generalize hsa : ({ st with labelId := st.labelId + 1 } : CState) = sa at hE hK hlab ⊢
   have hsa_id : sa.labelId = st.labelId + 1 := by subst hsa; rfl
   have hsa_code : sa.code = st.code := by subst hsa; rfl
   have hsa_top : sa.regTop = st.regTop := by subst hsa; rfl
-  obtain ⟨f1, hlt1, hb1⟩ := (comp_frame l hfl).2 sa reg ec st.labelId elsel false lb b (by rw [hsa_top]; exact H.htop)
+  obtain ⟨f1, hlt1, hb1, _⟩ := (comp_frame l).2 sa reg ec st.labelId elsel false lb b (by rw [hsa_top]; exact H.htop)
   generalize hr1 : comp l (.aux reg ec st.labelId elsel false lb b) sa = r1 at hE hK hlab f1 hlt1 hb1 ⊢
   generalize hsc : setLabelHere r1.st st.labelId = sc at hE hK hlab ⊢
   have hsc_code : sc.code = r1.st.code := by subst hsc; rfl
   have hsc_id : sc.labelId = r1.st.labelId := by subst hsc; rfl
   have hsc_top : sc.regTop = st.regTop := by subst hsc; simp [f1.regTop, hsa_top]
   have hsc_consts : sc.consts = r1.st.consts := by subst hsc; rfl
-  obtain ⟨f2, hlt2, hb2⟩ := (comp_frame r hfr).2 sc reg ec thenl elsel hasnext lb r1.b (by rw [hsc_top]; exact H.htop)
+  obtain ⟨f2, hlt2, hb2, _⟩ := (comp_frame r).2 sc reg ec thenl elsel hasnext lb r1.b (by rw [hsc_top]; exact H.htop)
   generalize hr2 : comp r (.aux reg ec thenl elsel hasnext lb r1.b) sc = r2 at hE hK hlab f2 hlt2 hb2 ⊢
   have hid1 : st.labelId + 1 ≤ r1.st.labelId := by rw [← hsa_id]; exact f1.labelId
   have hid2 : r1.st.labelId ≤ r2.st.labelId := by rw [← hsc_id]; exact f2.labelId
@@ -62,7 +65,7 @@ theorem auxSem_and (d : Dom V) (l r : Cond) (hfl : BCFrag l) (hfr : BCFrag r) (h
   | none => simp [hvl] at hev
   | some vl =>
     simp only [hvl] at hev
-    obtain ⟨ρ1, pc1, hreach1, hout1⟩ := hl sa F reg ec st.labelId elsel false lb b ρ γ vl H1 hloc.1 hvl
+    obtain ⟨ρ1, pc1, hreach1, hout1⟩ := hl sa F reg ec st.labelId elsel false lb b ρ γ vl H1 hloc.1 (by omega) hvl
       (by rw [hr1]; exact Or.inl hpre1)
       (by rw [hr1]; exact (hsc_consts ▸ f2.consts).trans hK)
       (by rw [hr1]; intro L h1 h2
@@ -96,30 +99,31 @@ theorem auxSem_and (d : Dom V) (l r : Cond) (hfl : BCFrag l) (hfr : BCFrag r) (h
           hthen := by have := H.hthen; omega, helse := by have := H.helse; omega, hle := by have := H.hle; omega,
           hlt := by have := H.hlt; omega, hlf := by have := H.hlf; omega, het := H.het, hef := H.hef, disc := H.disc,
           okThen := H.okThen, okElse := H.okElse, okE := H.okE, okT := H.okT, okF := H.okF, allOK := H.allOK }
-      obtain ⟨ρ2, pc2, hreach2, hout2⟩ := hr sc F reg ec thenl elsel hasnext lb r1.b ρ1 γ v H2 hloc.2 hevr
+      obtain ⟨ρ2, pc2, hreach2, hout2⟩ := hr sc F reg ec thenl elsel hasnext lb r1.b ρ1 γ v H2 hloc.2 (by omega) hevr
         (by rw [hr2]; exact hE) (by rw [hr2]; exact hK)
         (by rw [hr2]; intro L h1 h2; exact hlab L (by omega) h2)
       rw [hr2] at hout2
       rw [hsc_code] at hreach2
       exact ⟨ρ2, pc2, hreach1.trans hreach2, hout2.rebase (P := ⟨F, lb, reg, savereg ec reg, d, ρ1⟩) hf1 (fun h => h)⟩
 
-theorem auxSem_or (d : Dom V) (l r : Cond) (hfl : BCFrag l) (hfr : BCFrag r) (hl : AuxSem d l) (hr : AuxSem d r) :
+theorem auxSem_or (d : Dom V) (l r : Cond) (hl : AuxSem d l) (hr : AuxSem d r) :
     AuxSem d (.or l r) := by
-  intro st F reg ec thenl elsel hasnext lb b ρ γ v H hloc hev hE hK hlab
+  intro st F reg ec thenl elsel hasnext lb b ρ γ v H hloc hreg hev hE hK hlab
+  simp only [rh] at hreg
   simp only [comp, newLabel] at hE hK hlab ⊢
   simp only [LocalsBelow] at hloc
   generalize hsa : ({ st with labelId := st.labelId + 1 } : CState) = sa at hE hK hlab ⊢
   have hsa_id : sa.labelId = st.labelId + 1 := by subst hsa; rfl
   have hsa_code : sa.code = st.code := by subst hsa; rfl
   have hsa_top : sa.regTop = st.regTop := by subst hsa; rfl
-  obtain ⟨f1, hlt1, hb1⟩ := (comp_frame l hfl).2 sa reg ec thenl st.labelId true lb b (by rw [hsa_top]; exact H.htop)
+  obtain ⟨f1, hlt1, hb1, _⟩ := (comp_frame l).2 sa reg ec thenl st.labelId true lb b (by rw [hsa_top]; exact H.htop)
   generalize hr1 : comp l (.aux reg ec thenl st.labelId true lb b) sa = r1 at hE hK hlab f1 hlt1 hb1 ⊢
   generalize hsc : setLabelHere r1.st st.labelId = sc at hE hK hlab ⊢
   have hsc_code : sc.code = r1.st.code := by subst hsc; rfl
   have hsc_id : sc.labelId = r1.st.labelId := by subst hsc; rfl
   have hsc_top : sc.regTop = st.regTop := by subst hsc; simp [f1.regTop, hsa_top]
   have hsc_consts : sc.consts = r1.st.consts := by subst hsc; rfl
-  obtain ⟨f2, hlt2, hb2⟩ := (comp_frame r hfr).2 sc reg ec thenl elsel hasnext lb r1.b (by rw [hsc_top]; exact H.htop)
+  obtain ⟨f2, hlt2, hb2, _⟩ := (comp_frame r).2 sc reg ec thenl elsel hasnext lb r1.b (by rw [hsc_top]; exact H.htop)
   generalize hr2 : comp r (.aux reg ec thenl elsel hasnext lb r1.b) sc = r2 at hE hK hlab f2 hlt2 hb2 ⊢
   have hid1 : st.labelId + 1 ≤ r1.st.labelId := by rw [← hsa_id]; exact f1.labelId
   have hid2 : r1.st.labelId ≤ r2.st.labelId := by rw [← hsc_id]; exact f2.labelId
@@ -141,7 +145,7 @@ theorem auxSem_or (d : Dom V) (l r : Cond) (hfl : BCFrag l) (hfr : BCFrag r) (hl
   | none => simp [hvl] at hev
   | some vl =>
     simp only [hvl] at hev
-    obtain ⟨ρ1, pc1, hreach1, hout1⟩ := hl sa F reg ec thenl st.labelId true lb b ρ γ vl H1 hloc.1 hvl
+    obtain ⟨ρ1, pc1, hreach1, hout1⟩ := hl sa F reg ec thenl st.labelId true lb b ρ γ vl H1 hloc.1 (by omega) hvl
       (by rw [hr1]; exact Or.inl hpre1)
       (by rw [hr1]; exact (hsc_consts ▸ f2.consts).trans hK)
       (by rw [hr1]; intro L h1 h2
@@ -175,7 +179,7 @@ theorem auxSem_or (d : Dom V) (l r : Cond) (hfl : BCFrag l) (hfr : BCFrag r) (hl
           hthen := by have := H.hthen; omega, helse := by have := H.helse; omega, hle := by have := H.hle; omega,
           hlt := by have := H.hlt; omega, hlf := by have := H.hlf; omega, het := H.het, hef := H.hef, disc := H.disc,
           okThen := H.okThen, okElse := H.okElse, okE := H.okE, okT := H.okT, okF := H.okF, allOK := H.allOK }
-      obtain ⟨ρ2, pc2, hreach2, hout2⟩ := hr sc F reg ec thenl elsel hasnext lb r1.b ρ1 γ v H2 hloc.2 hevr
+      obtain ⟨ρ2, pc2, hreach2, hout2⟩ := hr sc F reg ec thenl elsel hasnext lb r1.b ρ1 γ v H2 hloc.2 (by omega) hevr
         (by rw [hr2]; exact hE) (by rw [hr2]; exact hK)
         (by rw [hr2]; intro L h1 h2; exact hlab L (by omega) h2)
       rw [hr2] at hout2
